@@ -17,7 +17,8 @@ func DecodeIPv4(b []byte) (Type, error) {
 	if len(b) != 4 {
 		return IPv4{0, 0, 0, 0}, nil
 	}
-	return IPv4(b), nil
+	// Copy: b may be a buffer that the caller reuses.
+	return IPv4(append([]byte(nil), b...)), nil
 }
 
 // Serialize implements the Type interface.
